@@ -117,6 +117,27 @@ P("panic_fixed_remove_oob", ["C08"], "FixedBumpVec::remove / swap_remove, every 
 P("panic_fixed_extend_from_within_oob", ["C08"], "extend_from_within_clone(s..e), every invalid range", [r"slice_index_order_fail|slice_end_index_len_fail"])
 S("panics", "nopanic_box_in_range", ["C08"], "in-range remove / swap_remove / drain never reach a panic")
 
+# strings (C09)
+STB = "every valid UTF-8 text of <= 4 bytes (1-4 byte chars and mixes) in a fixed string of capacity 8; every index/range; any char; inserted &str <= 2 bytes; unwind 10"
+for name, inst in [
+    ("str_push", "try_push(any char)"), ("str_push_str", "try_push_str(any valid <=2 bytes)"), ("str_insert", "try_insert(idx, any char) at every boundary"),
+    ("str_insert_str", "try_insert_str at every boundary"), ("str_remove", "remove(idx) at every boundary < len"), ("str_pop_truncate_clear", "pop / truncate(n) / clear"),
+    ("str_retain", "retain under every predicate over char positions"), ("str_drain_split_off", "drain(a..b) and split_off(a..b) at every pair of boundaries (split_off: non-rotating ranges)"),
+    ("str_replace_range", "try_replace_range(a..b, any valid <=2 bytes)"), ("str_extend_from_within", "try_extend_from_within(a..b)"),
+    ("str_full_refuses", "full fixed string: try_push / try_insert / try_push_str => Err, unchanged"), ("str_from_utf8_arbitrary", "FixedBumpString::from_utf8 on ARBITRARY <=4 bytes vs core::str::from_utf8"),
+]:
+    props = ["C09"] + (["C16"] if "split_off" in name else [])
+    if name == "str_from_utf8_arbitrary":
+        H("kani-slice", "strings::" + name, props, stubbing=True, bounds=STB, inst=inst, unwind=10, timeout_s=1200, mem_gb=4, note=SL_STUBS)
+        continue
+    H("kani-slice", "strings::" + name, props, stubbing=True, bounds=STB, inst=inst + " [validity oracle: scalar validator proven equal to core on <=4 bytes]", unwind=10, timeout_s=1200, mem_gb=4, note=SL_STUBS)
+    H("kani-slice", "strings::" + name + "_core", props, tier="thorough", stubbing=True, bounds=STB, inst=inst + " [validity oracle: core::str::from_utf8]", unwind=10, timeout_s=3600, mem_gb=12, note=SL_STUBS)
+H("kani-slice", "strings::str_validity_model_equals_core", ["C09"], stubbing=True, bounds="every byte string of length <= 4", inst="scalar UTF-8 validator == core::str::from_utf8(..).is_ok()", unwind=10, timeout_s=1200, mem_gb=4, note=SL_STUBS)
+H("kani-slice", "strings::panic_str_bad_index_core", ["C09"], tier="thorough", kind="must_panic", expect_fail=[r"assert_char_boundary|slice_error_fail|str::|remove|slice_index|slice_end|slice_start|panic"], stubbing=True, bounds=STB,
+  inst="as panic_str_bad_index with core validity", unwind=10, timeout_s=3600, mem_gb=8, note=SL_STUBS)
+H("kani-slice", "strings::panic_str_bad_index", ["C09"], kind="must_panic", expect_fail=[r"assert_char_boundary|slice_error_fail|str::|remove|slice_index|slice_end|slice_start|panic"], stubbing=True, bounds=STB,
+  inst="insert / insert_str / remove / truncate / replace_range with every index that is out of range or not a char boundary", unwind=10, timeout_s=1200, mem_gb=4, note=SL_STUBS)
+
 
 def for_property(pid, tier):
     out = []
